@@ -315,6 +315,7 @@ func checkC03(c *Ctx) error {
 		o.MaxServices = 2
 		o.Scopes = false
 		o.Decorators = false
+		o.HostileAlias = i%3 == 1 // functions imported through aliases named like the packages the generated code itself imports (fmt, os, errors, ...)
 		conf := gen.Behaviour(rr, o)
 		// more parameters: every shape
 		g := gen.NewPatternGen(rr, conf)
